@@ -707,6 +707,7 @@ def add_online_moments(a: np.ndarray, b: np.ndarray, c: np.ndarray) -> None:
     na = a["count"].astype(np.float64)
     nb = b["count"].astype(np.float64)
     nc = na + nb
+    nc = np.where(nc == 0, 1.0, nc)  # both operands empty: every numerator below is zero as well
     delta = b["m1"] - a["m1"]
     delta2 = delta * delta
     delta3 = delta * delta2
@@ -740,8 +741,9 @@ def add_online_moments(a: np.ndarray, b: np.ndarray, c: np.ndarray) -> None:
         / (nc ** 2)
     )
     c["m4"][:] += 4 * delta * (na * b["m3"] - nb * a["m3"]) / nc
-    c["max"][:] = np.maximum(a["max"], b["max"])
-    c["min"][:] = np.minimum(a["min"], b["min"])
+    # An operand that has received no samples carries no extrema (its zeros are not data)
+    c["max"][:] = np.where(nb == 0, a["max"], np.where(na == 0, b["max"], np.maximum(a["max"], b["max"])))
+    c["min"][:] = np.where(nb == 0, a["min"], np.where(na == 0, b["min"], np.minimum(a["min"], b["min"])))
 
 
 @njit(cache=True, fastmath=True)
